@@ -116,10 +116,12 @@ CHECKS["C09"] = dict(
         dict(pkg="internal/cc", entry="HC09Adapter", params=dict(n=3, kind=0), thorough=dict(params=dict(n=4), timeout=3000)),
         dict(pkg="internal/cc", entry="HC09Adapter", params=dict(n=3, kind=1), thorough=dict(params=dict(n=4), timeout=3000)),
         dict(pkg="internal/cc", entry="HC09RFC8888", params=dict(nbases=1), require_covers=["decoded"], thorough=dict(params=dict(nbases=2), timeout=3000)),
+        dict(pkg="internal/verifchain", entry="HC09Compose", require_covers=["composed"]),
+        dict(pkg="pkg/rtpfb", entry="HC09Rtpfb", require_covers=["two feedbacks"]),
     ],
-    bounds=dict(quick="gcc FeedbackAdapter: 3 covered sequence numbers + 1 beyond the declared range, every subset of them known to the history, base 10 or 65534 (wrap), one status-vector chunk (2-bit symbols, padded to 7) with every symbol combination / one run-length chunk of each symbol; symbolic deltas (small 0..255, large int16), sizes, departure times, reference time. RFC 8888 path: two streams x 3 sent packets (every membership subset of the first stream), one report block per stream starting at 65535 (wrap), symbolic received flags, ECN, 13-bit arrival offsets and report timestamp: each ack == (recorded size/departure, encoded arrival = reference - offset/1024 s, ECN), nothing else acknowledged",
+    bounds=dict(quick="gcc FeedbackAdapter: 3 covered sequence numbers + 1 beyond the declared range, every subset of them known to the history, base 10 or 65534 (wrap), one status-vector chunk (2-bit symbols, padded to 7) with every symbol combination / one run-length chunk of each symbol; symbolic deltas (small 0..255, large int16), sizes, departure times, reference time. RFC 8888 path: two streams x 3 sent packets (every membership subset of the first stream), one report block per stream starting at 65535 (wrap), symbolic received flags, ECN, 13-bit arrival offsets and report timestamp: each ack == (recorded size/departure, encoded arrival = reference - offset/1024 s, ECN), nothing else acknowledged. Composition: feedback built by the TWCC recorder of this library for 4 sent packets (every arrival subset, arrival steps from a table, 2 bases incl. wrap) decoded by the gcc adapter, and two successive recorder feedbacks over 5 sent packets through rtpfb convertTWCC + history: each sent packet reported at most once, in send order, with the recorded arrival within 125 us",
                 thorough="4 covered numbers"),
-    outside=["more than one chunk per feedback", "LRU eviction at size 250 (membership is chosen directly)", "rtpfb history and its CCFB conversion", "feedback produced by the library's own generators (composition)"],
+    outside=["more than one chunk per feedback", "LRU eviction at size 250 (membership is chosen directly)", "rtpfb CCFB (RFC 8888) conversion", "composition with the RFC 8888 generator"],
     assumptions=["container/list executed from SSA", "time.Time 96-bit model"],
 )
 
